@@ -56,11 +56,13 @@ func TestCheck(t *testing.T) {
 
 	run.Rule("monitor 1 (no panic): documents from a grammar over the schema under test (zoo monolith or 2-service gateway) that is biased to syntactically valid GraphQL thunder does not support or mishandles " +
 		"(subscriptions, inline fragments with and without type condition, directives everywhere incl. unknown, repeated, @skip/@include with missing / wrong-typed / variable `if`, variables in argument, directive and default positions, undefined variables, " +
-		"type-system definitions, nested list/object literals, huge ints/floats, odd names, duplicate operation/fragment names, fragment cycles, unused and undefined fragments), 35% of them byte-mutated; random JSON variable documents; HTTP bodies and websocket frames with wrong JSON types / missing fields; " +
+		"type-system definitions, nested list/object literals, huge ints/floats, odd names, duplicate operation/fragment names, fragment cycles, unused and undefined fragments), 35% of them byte-mutated; " +
+		"14% valid documents around one same-alias conflict below the root; 12% valid documents around one mergeable repeat (a response key selected 2-3 times with EQUAL arguments of every JSON shape - scalars, lists of scalars, input objects, lists of input objects, lists of lists - " +
+		"given as literals, JSON variables or one of each, at the root or 1-3 fields below it, side by side or through inline / named fragments, optionally one copy differing deep inside the value); random JSON variable documents; HTTP bodies and websocket frames with wrong JSON types / missing fields; " +
 		"each driven through Parse, PrepareQuery, Execute, HTTPHandler.ServeHTTP, ServeJSONSocket, federation.Executor.Execute and federation.Server.Execute in a child process. Non-trivial = thunder's conversion code was reached (Parse returned a *Query); distinct = feature set x outcome vector. " +
 		"Deep inputs (fragment cycles, nesting 1e3..1e5, thorough up to 3e6) each run in a child of their own; non-trivial = any; distinct = input name. " +
 		"monitor 3 (containment): scenario = (placement of the panicking resolver, panic value kind, subscribe/mutate, order) on one websocket connection with healthy subscriptions; all are non-trivial; distinct = scenario coordinates. " +
-		"monitor 4 (cancellation, fault enumeration): scenario = (target entry point, cancellation point, resolver behaviour); all are non-trivial; distinct = scenario coordinates.")
+		"monitor 4 (cancellation, fault enumeration): scenario = (target entry point, cancellation point, resolver behaviour), incl. requests cancelled while a batch is gathering and websocket subscribe / mutate requests whose client goes away (unsubscribe, socket closed, connection context ended) while their resolver is running; all are non-trivial; distinct = scenario coordinates.")
 	run.Assume("the fake JSONSocket decodes frames like gorilla/websocket's ReadJSON (json.Decoder.Decode into the server's envelope)")
 	run.Assume("a panic recovered by the harness wrapper around a thunder entry point, or a fatal crash of the child process with a thunder frame, is a panic of thunder; resolvers of the zoo schema never panic in monitors 1 and 4")
 	run.Assume("vlib.WaitCond's quiescence (no resolver entry, sub-query, socket write for 450 ms after a 2-3 s soft deadline) means stuck, not slow")
